@@ -9,6 +9,7 @@ namespace Driver.Discovery
 structure DocD where
   id : String
   issuerEmpty : Bool
+  noES : Bool := false   -- the document names no end-session (and no revocation) endpoint
   deriving Inhabited
 
 def ns : Int := 1000000000
@@ -23,7 +24,7 @@ structure St where
 
 def parseOutcome (j : Json) : Outcome DocD :=
   match jS j "k" with
-  | "ok" => .ok { id := jS j "doc", issuerEmpty := jB j "issuerEmpty" } (jI j "dur")
+  | "ok" => .ok { id := jS j "doc", issuerEmpty := jB j "issuerEmpty", noES := jB j "noES" } (jI j "dur")
   | _ => .fail (jI j "dur")
 
 /-- the script followed by enough healthy answers -/
@@ -46,7 +47,7 @@ def step (st : St) (j : Json) : St × Option Json :=
   match jS j "op" with
   | "dcfg" =>
     ({ t0 := jI j "t0", script := (jA j "outcomes").toList.map parseOutcome,
-       final := { id := jS j "finalDoc", issuerEmpty := false } }, none)
+       final := { id := jS j "finalDoc", issuerEmpty := false, noES := jB j "finalNoES" } }, none)
   | "dreq" =>
     let at_ := jI j "at"
     let giveUp : Option Int := (j.getObjValAs? Int "giveUp").toOption
@@ -65,7 +66,7 @@ def step (st : St) (j : Json) : St × Option Json :=
       let e := early facts (some ir.1) rs.doc.issuerEmpty at_ giveUp
       let _ := deadline
       (st, some (Json.mkObj ([("r", Json.str (match e with | .serve => "serve" | .unavailable503 => "503" | .timeout408 => "408"))] ++
-        (match e with | .serve => [("doc", Json.str rs.doc.id)] | _ => []))))
+        (match e with | .serve => [("doc", Json.str rs.doc.id), ("es", Json.str (if rs.doc.noES then "none" else rs.doc.id))] | _ => []))))
   | "dattempts" =>
     let upTo := jI j "upTo"
     let sc := fullScript st
